@@ -328,6 +328,39 @@ func urange(t *Term) (lo, hi uint64, ok bool) {
 		if t.args[0].isConst() {
 			return 0, t.args[0].val, true
 		}
+	case opLshr:
+		if t.args[1].isConst() {
+			k := t.args[1].val
+			if k >= uint64(t.sort) {
+				return 0, 0, true
+			}
+			_, h, ok := urange(t.args[0])
+			if !ok {
+				h = mask(t.sort)
+			}
+			return 0, h >> k, true
+		}
+	case opUrem:
+		if t.args[1].isConst() && t.args[1].val != 0 {
+			return 0, t.args[1].val - 1, true
+		}
+	case opAdd:
+		l1, h1, ok1 := urange(t.args[0])
+		l2, h2, ok2 := urange(t.args[1])
+		if ok1 && ok2 && h1 <= mask(t.sort)-h2 {
+			return l1 + l2, h1 + h2, true
+		}
+	case opBvOr:
+		_, h1, ok1 := urange(t.args[0])
+		_, h2, ok2 := urange(t.args[1])
+		if ok1 && ok2 {
+			// upper bound: all bits below the highest set bit of either bound
+			m := h1 | h2
+			for sh := uint(1); sh < 64; sh <<= 1 {
+				m |= m >> sh
+			}
+			return 0, m, true
+		}
 	}
 	return 0, 0, false
 }
